@@ -370,6 +370,20 @@ def r08_9(run):
                    "locks are released eagerly outside the acquiring function's error path: the op's finalizer releases them a second time, "
                    "so arrays shared with another live graph become writeable")
     run.count("direct release calls", n)
+    # the per-array release (`_release_lock_on_arr_writeability`) drops one lock count of one array: it is private to the lock module, where
+    # release_writeability_lock_on_op applies it once per array an op locked.  Any other user takes counts that belong to live ops.
+    m = 0
+    for fi in run.project.all_functions():
+        uses = [x for x in own_nodes(fi.node) if (isinstance(x, ast.Name) and x.id == "_release_lock_on_arr_writeability")
+                or (isinstance(x, ast.Attribute) and x.attr == "_release_lock_on_arr_writeability")]
+        for u in uses:
+            m += 1
+            ok = fi.module.name.endswith("_utils.lock_management") and fi.name == "release_writeability_lock_on_op"
+            run.ob("R08.9", loc(fi, u), fi.short, "use of the per-array release _release_lock_on_arr_writeability", ok,
+                   "applied by release_writeability_lock_on_op to the arrays of one op's collection" if ok else
+                   "lock counts are released by hand, outside the op-level release: the ops that took these counts release them again when they are "
+                   "finalized, so an array shared with a live graph becomes writeable (or a count goes negative and the array stays locked)")
+    run.count("uses of the per-array release", m)
     # exactly once: in _op no path passes two release/finalize nodes of the same collection
     fi = anchor_func(run, OP)
     from .util import op_instance_call
